@@ -121,7 +121,10 @@ def arrays(ref_lat, ref_lon, seed, n, shape2d):
     if shape2d:
         x = x.reshape(2, -1)
         y = y.reshape(2, -1)
+    x_before, y_before = x.copy(), y.copy()
     la, lo = xy_to_latlon(x, y, ref_lat, ref_lon)
+    if not (np.array_equal(x, x_before) and np.array_equal(y, y_before)):
+        return Verdict(False, "xy_to_latlon modified the coordinate arrays it was given", key="arguments-mutated")
     if np.shape(la) != x.shape or np.shape(lo) != x.shape:
         return Verdict(False, "shapes %r %r for input %r" % (np.shape(la), np.shape(lo), x.shape),
                        key="array-shape")
@@ -152,6 +155,17 @@ def tower_config(ref_lat, ref_lon, offsets):
                            % (t.name, t.x, t.y, x, y), key="tower-xy-not-filled")
         if (t.x, t.y) != latlon_to_xy(d["lat"], d["lon"], ref_lat, ref_lon):
             return Verdict(False, "tower xy differs from latlon_to_xy", key="tower-xy-not-filled")
+    # the configuration rebuilt around the SAME tower objects (a parameter sweep with dataclasses.replace re-runs
+    # __post_init__): the coordinates are those of the forward map again, not shifted, and an array grid handed to the
+    # inverse map is not modified by it
+    import dataclasses
+    for rep in range(2):
+        cfg = dataclasses.replace(cfg, met=dataclasses.replace(cfg.met, wind_dir=10.0 * (rep + 1)))
+        for t, (x, y), d in zip(cfg.towers, offsets, towers):
+            if (t.x, t.y) != latlon_to_xy(d["lat"], d["lon"], ref_lat, ref_lon):
+                return Verdict(False, "tower %s after %d rebuild(s) of the configuration around the same towers: local (%r,%r), forward map "
+                               "gives %r" % (t.name, rep + 1, t.x, t.y, latlon_to_xy(d["lat"], d["lon"], ref_lat, ref_lon)),
+                               key="tower-xy-depends-on-history")
     return Verdict(True, "%d towers" % len(offsets))
 
 
